@@ -381,3 +381,7 @@ def check(P, R, tier):
     from ..common import fold
     fold(R, P, "c17", ("C17.O1", "C17.O2", "C17.O3", "C17.O4", "C17.O5", "C17.O6"), "C04.S5", 12)
     fold(R, P, "c19", ("C19.G1", "C19.G2", "C19.G4"), "C04.S5", 8)
+    # "altering any signed field, moving a signature to another message, round, block or message type ... makes the
+    # message be rejected": only if the signed digest of each message type covers every field that gives it meaning and
+    # the digests of different types cannot coincide (C20.H1, the digest-coverage and layout rule)
+    fold(R, P, "c20", ("C20.H1",), "C04.S6", 40)
